@@ -75,6 +75,8 @@ type Case struct {
 	Retention int64  `json:"retention"`
 	Vers      []Ver  `json:"vers"`
 	Steps     []Step `json:"steps"`
+	// Race != nil: not a schedule but a run of the concurrent engine (race_test.go) with these parameters
+	Race *RaceParams `json:"race,omitempty"`
 }
 
 // ---------- pools / oracle tables ----------
@@ -1000,7 +1002,11 @@ func TestCheck(t *testing.T) {
 		if err := vh.LoadReplayCase(env.Replay, &c); err != nil {
 			t.Fatal(err)
 		}
-		finish(&c, "replay")
+		if c.Race != nil {
+			judgeRace(t, run, *c.Race)
+		} else {
+			finish(&c, "replay")
+		}
 	} else {
 		for _, c := range vh.LoadCorpus[Case](env, "C09") {
 			c := c
@@ -1032,7 +1038,11 @@ func TestCheck(t *testing.T) {
 			finish(&c, "random")
 		}
 	}
-	if err := run.Finish("two real silence.Silences instances; 2-8 versions over 1-3 ids with distinct update times; all delivery orders for small sets, random schedules of single / batched / duplicated deliveries, re-broadcast forwarding, full-state exchange, re-merge of own state, local Set/Expire, GC, merge instants at ExpiresAt -1/0/+1 ns; after every op the content (Query by ids), the bookkeeping (st/mi/vi/version) and the broadcasts are compared; non-trivial = at least one merge changed the state"); err != nil {
+	if env.Replay == "" {
+		// concurrent engine: real Merge / Set / Expire racing on all cores, judged against the order-independent result
+		judgeRace(t, run, racePlan(env))
+	}
+	if err := run.Finish("two real silence.Silences instances; 2-8 versions over 1-3 ids with distinct update times; all delivery orders for small sets, random schedules of single / batched / duplicated deliveries, re-broadcast forwarding, full-state exchange, re-merge of own state, local Set/Expire, GC, merge instants at ExpiresAt -1/0/+1 ns; after every op the content (Query by ids), the bookkeeping (st/mi/vi/version) and the broadcasts are compared; ; plus a judged concurrent engine outside synctest (goroutines merging 2-3 versions of each of several hundred ids at once in large / small / single-entry messages while others are expired / edited locally; afterwards every id holds its newest version); non-trivial = at least one merge changed the state"); err != nil {
 		t.Fatal(err)
 	}
 }
